@@ -11,6 +11,10 @@ mod c02;
 mod c17;
 mod c09;
 mod c16;
+mod c10;
+mod c03;
+mod c11;
+mod c08;
 
 use engine::{Env, Tier};
 use std::path::PathBuf;
@@ -97,6 +101,10 @@ fn main() {
         "C17" => c17::run(&env),
         "C09" => c09::run(&env),
         "C16" => c16::run(&env),
+        "C10" => c10::run(&env),
+        "C03" => c03::run(&env, &rest),
+        "C11" => c11::run(&env),
+        "C08" => c08::run(&env),
         _ => usage(),
     };
     std::process::exit(code);
